@@ -11,7 +11,7 @@ from framework import REPO, ROOT
 TIE = ["Nsq.Tie.Proto", "Nsq.Tie.ProtoBase10", "Nsq.Tie.ProtoFunc", "Nsq.Tie.ProtoIdentify", "Nsq.Tie.NamesFn"]
 PROPS = ["Nsq.Props.C09", "Nsq.Props.C09Identify"]
 TIE_AUDIT = ["Nsq.Tie.ProtoAudit"]          # audit round 7 (C09 only; props/C10.py uses TIE / HARNESS above)
-PROPS_AUDIT = ["Nsq.Props.C09Audit", "Nsq.Props.C09Batch"]
+PROPS_AUDIT = ["Nsq.Props.C09Audit", "Nsq.Props.C09Batch", "Nsq.Props.C09Agree"]
 HARNESS_AUDIT = ["e3/audit09_test.go"]
 HARNESS = ["e3/infra_test.go", "e3/proto_test.go", "e3/http_test.go", "e3/httpfull_test.go", "e3/identify_test.go"]
 NAME_RE = re.compile(rb"^[.a-zA-Z0-9_-]+(#ephemeral)?$")
